@@ -12,10 +12,12 @@ import (
 	"fmt"
 	"os"
 	"regexp"
+	"runtime"
 	"sort"
 	"strconv"
 	"strings"
 	"sync"
+	"sync/atomic"
 	"time"
 
 	"github.com/klev-dev/klevdb"
@@ -243,6 +245,44 @@ func CleanupWorker() {
 	}
 }
 
+// runScheduled runs f in a thread of its own under the scheduler and
+// reports a deadlock ("" = f returned).
+func runScheduled(f func()) string {
+	var exited int32
+	done := make(chan struct{})
+	vsched.Begin(1, nil)
+	go func() {
+		defer close(done)
+		defer atomic.AddInt32(&exited, 1)
+		vsched.Enter(0)
+		f()
+		vsched.Exit(0)
+	}()
+	hung := vsched.Run(20 * time.Second)
+	if dl, what := vsched.Deadlocked(); dl || hung {
+		vsched.Abort()
+		joinAborted(&exited, 1)
+		if what == "" {
+			what = "a thread did not reach its next scheduling point"
+		}
+		return what
+	}
+	<-done
+	return ""
+}
+
+// joinAborted waits (bounded) until the threads of an aborted execution have
+// left: parked threads exit through runtime.Goexit once they see the abort
+// flag; starting the next execution before they are gone would leave them
+// spinning for ever (the flag is reset) or let their deferred unlocks touch
+// the next execution's scheduler state.
+func joinAborted(exited *int32, n int) {
+	start := time.Now()
+	for atomic.LoadInt32(exited) < int32(n) && time.Since(start) < 5*time.Second {
+		runtime.Gosched()
+	}
+}
+
 // Exec runs the program once. With free=true the scheduler stays off and the
 // threads run freely (cross-check of the scheduler; call/return order is then
 // taken from a global counter).
@@ -281,6 +321,7 @@ func Exec(p Program, choices []int, free bool) (*Execution, error) {
 		}
 	}()
 	var wg sync.WaitGroup
+	var exited int32
 	var fmu sync.Mutex
 	fstep := 0
 	var fhist []vsched.HistEvent
@@ -295,6 +336,7 @@ func Exec(p Program, choices []int, free bool) (*Execution, error) {
 		wg.Add(1)
 		go func(ti int) {
 			defer wg.Done()
+			defer atomic.AddInt32(&exited, 1)
 			if !free {
 				vsched.Enter(ti)
 			}
@@ -351,6 +393,7 @@ func Exec(p Program, choices []int, free bool) (*Execution, error) {
 			if !waitersOnly {
 				x.Deadlock = what
 				vsched.Abort()
+				joinAborted(&exited, len(p.Threads))
 				return x, nil
 			}
 			// quiescence with parked waiters: legitimate in blocking programs. Release
@@ -363,6 +406,7 @@ func Exec(p Program, choices []int, free bool) (*Execution, error) {
 			if dl2, what2 := vsched.Deadlocked(); dl2 {
 				x.Deadlock = "after cancelling all contexts: " + what2
 				vsched.Abort()
+				joinAborted(&exited, len(p.Threads))
 				return x, nil
 			}
 			x.Dec = append([]vsched.Decision(nil), vsched.Decisions()...)
@@ -373,39 +417,53 @@ func Exec(p Program, choices []int, free bool) (*Execution, error) {
 			x.EverParked[ti] = vsched.EverParked(ti)
 		}
 		if x.Hung {
+			vsched.Abort()
+			joinAborted(&exited, len(p.Threads))
 			return x, nil
 		}
 		wg.Wait()
 	}
-	// final sequential observation
+	// final sequential observation and Close. Under the scheduler they run as a
+	// one-thread program: if they wait for something nobody will provide (a leaked
+	// lock or barrier token) that is a deadlock, not a hang of the harness.
 	wl := w.L
-	off := klevdb.OffsetOldest
 	if closedBy(p) {
 		x.FinalErr = "closed"
 		w.L = nil
 		return x, nil
 	}
-	for i := 0; i < 100; i++ {
-		next, msgs, err := wl.Consume(off, 40)
+	final := func() {
+		off := klevdb.OffsetOldest
+		for i := 0; i < 100; i++ {
+			next, msgs, err := wl.Consume(off, 40)
+			if err != nil {
+				x.FinalErr = fmt.Sprintf("Consume(%d): %v", off, err)
+				break
+			}
+			x.Final = append(x.Final, toModels(msgs)...)
+			if len(msgs) == 0 && (off >= 0 && next <= off) {
+				break
+			}
+			off = next
+		}
+		n, err := wl.NextOffset()
 		if err != nil {
-			x.FinalErr = fmt.Sprintf("Consume(%d): %v", off, err)
-			break
+			x.FinalErr = "NextOffset: " + err.Error()
 		}
-		x.Final = append(x.Final, toModels(msgs)...)
-		if len(msgs) == 0 && (off >= 0 && next <= off) {
-			break
+		x.FinalN = n
+		if err := l.Close(); err != nil {
+			x.CloseErr = pathRe.ReplaceAllString(err.Error(), "")
 		}
-		off = next
 	}
-	n, err := wl.NextOffset()
-	if err != nil {
-		x.FinalErr = "NextOffset: " + err.Error()
-	}
-	x.FinalN = n
-	if err := l.Close(); err != nil {
-		x.CloseErr = err.Error()
+	if free {
+		final()
+	} else if what := runScheduled(final); what != "" {
+		x.CloseErr = "Close never returns once all calls have finished: " + what
 	}
 	w.L = nil
+	if strings.HasPrefix(x.CloseErr, "Close never returns") {
+		return x, nil
+	}
 	w.M = &model.Log{Live: x.Final, Next: x.FinalN, Monotone: true}
 	w.Dis = nil
 	w.CheckIndexFiles()
@@ -717,12 +775,14 @@ func execNotify(p Program, choices []int) (*Execution, error) {
 		}
 	}()
 	var wg sync.WaitGroup
+	var exited int32
 	vsched.Begin(len(p.Threads), choices)
 	for ti := range p.Threads {
 		x.Results[ti] = make([]Res, len(p.Threads[ti]))
 		wg.Add(1)
 		go func(ti int) {
 			defer wg.Done()
+			defer atomic.AddInt32(&exited, 1)
 			vsched.Enter(ti)
 			for ci, call := range p.Threads[ti] {
 				vsched.Call(ci, call)
@@ -754,6 +814,7 @@ func execNotify(p Program, choices []int) (*Execution, error) {
 		if !waitersOnly {
 			x.Deadlock = what
 			vsched.Abort()
+			joinAborted(&exited, len(p.Threads))
 			return x, nil
 		}
 		for _, c := range cancels {
@@ -763,6 +824,7 @@ func execNotify(p Program, choices []int) (*Execution, error) {
 		if dl2, what2 := vsched.Deadlocked(); dl2 {
 			x.Deadlock = "after cancelling all contexts: " + what2
 			vsched.Abort()
+			joinAborted(&exited, len(p.Threads))
 			return x, nil
 		}
 		x.Dec = append([]vsched.Decision(nil), vsched.Decisions()...)
@@ -773,6 +835,8 @@ func execNotify(p Program, choices []int) (*Execution, error) {
 		x.EverParked[ti] = vsched.EverParked(ti)
 	}
 	if x.Hung {
+		vsched.Abort()
+		joinAborted(&exited, len(p.Threads))
 		return x, nil
 	}
 	wg.Wait()
